@@ -662,6 +662,59 @@ pub fn socket_expiry_case(k: usize, asynchronous: bool, flush: bool) -> Result<V
     }
 }
 
+/// A tokio watcher whose discovery channel (capacity 1) the application reads late: a peer is
+/// announced twice with TTL 120 and then says goodbye (TTL 0) while the channel is still full.
+/// Once the application has caught up, the goodbye has been applied: the peer is gone.
+pub fn socket_channel_case(k: usize) -> Result<Vec<Finding>, String> {
+    use std::time::{Duration, Instant};
+    let svc = format!("_c20ch{}._tcp.local", k);
+    let case = json!({"kind": "socket-channel", "k": k});
+    let peer = RefName::txt(&format!("peer.{}", svc));
+    let message = |ttl: u32| {
+        let mut p = RefPacket { id: 0, flags: F_QR | F_AA, ..Default::default() };
+        p.answers.push(RefRR { name: peer.clone(), class: 1, cache_flush: false, ttl, rdata: typed(33, vec![Val::U16(0), Val::U16(0), Val::U16(4000), Val::Name(peer.clone())]) });
+        p.answers.push(RefRR { name: peer.clone(), class: 1, cache_flush: false, ttl, rdata: typed(1, vec![Val::U32(0x0a010204)]) });
+        p.encode_compressed(0, true)
+    };
+    let rt = tokio::runtime::Builder::new_multi_thread().worker_threads(2).enable_all().build().map_err(|e| format!("{}", e))?;
+    let r = guarded(|| -> Result<Vec<(String, String)>, String> {
+        let me = simple_mdns::InstanceInformation::new(format!("watcher{}", k)).with_port(4998).with_ip_address("10.9.9.2".parse().unwrap());
+        let (txc, mut rxc) = tokio::sync::mpsc::channel(1);
+        let w = rt.block_on(async { simple_mdns::async_discovery::ServiceDiscovery::new_with_scope(me, &svc, 120, Some(txc), simple_mdns::NetworkScope::V4) }).map_err(|e| format!("{:?}", e))?;
+        std::thread::sleep(Duration::from_millis(150));
+        let tx = std::net::UdpSocket::bind((std::net::Ipv4Addr::UNSPECIFIED, 0)).map_err(|e| format!("{}", e))?;
+        let _ = tx.set_multicast_loop_v4(true);
+        for ttl in [120u32, 120, 0] {
+            tx.send_to(&message(ttl), (std::net::Ipv4Addr::new(224, 0, 0, 251), 5353)).map_err(|e| format!("{}", e))?;
+            std::thread::sleep(Duration::from_millis(200));
+        }
+        // the application catches up; a goodbye takes effect one second after it is processed
+        let start = Instant::now();
+        let mut ever_listed = false;
+        let mut listed = true;
+        while start.elapsed() < Duration::from_millis(3000) {
+            while rxc.try_recv().is_ok() {}
+            listed = rt.block_on(w.get_known_services()).iter().any(|i| i.unescaped_instance_name() == "peer");
+            ever_listed |= listed;
+            if !listed && start.elapsed() > Duration::from_millis(1500) {
+                break;
+            }
+            std::thread::sleep(Duration::from_millis(50));
+        }
+        let mut bad = Vec::new();
+        if listed {
+            bad.push(("socket-channel|goodbye-not-applied".to_string(), format!("a peer announced twice (TTL 120) and then withdrawn (TTL 0) while the watcher's discovery channel was full is still listed 3 s after the application caught up (ever listed: {})", ever_listed)));
+        }
+        Ok(bad)
+    });
+    rt.shutdown_timeout(Duration::from_millis(100));
+    match r {
+        Err(pn) => Ok(vec![finding(format!("C20|socket-channel|{}", pn.sig()), format!("{:?}", pn), case)]),
+        Ok(Err(e)) => Err(e),
+        Ok(Ok(bad)) => Ok(bad.into_iter().map(|(t, d)| finding(format!("C20|{}", t), d, case.clone())).collect()),
+    }
+}
+
 pub fn real_traces() -> Vec<Vec<Op>> {
     vec![
         vec![Op::AddCached(1, 1, false), Op::Tick],
@@ -902,6 +955,19 @@ pub fn run(ctx: &Ctx) {
                     Err(_) => why = Some("stage thread died".to_string()),
                 }
             }
+            match std::thread::spawn(move || socket_channel_case(9)).join() {
+                Ok(Ok(f)) => {
+                    ran += 1;
+                    t.evals += 1;
+                    t.nontrivial += 1;
+                    t.transitions += 3;
+                    t.outcome(if f.is_empty() { "expired-on-time" } else { "socket-expiry-bad" });
+                    ctx.violations(f);
+                    ctx.space("real tokio ServiceDiscovery with a discovery channel of capacity 1 read late: a raw UDP peer is announced twice (TTL 120) and withdrawn (TTL 0) while the channel is full; once the application has caught up the peer must be gone", 1, "complete for the one case");
+                }
+                Ok(Err(e)) => why = Some(format!("services could not be started: {}", e)),
+                Err(_) => why = Some("stage thread died".to_string()),
+            }
             ctx.merge(t);
         }
         ctx.set_extra("socket_expiry_stage", json!({"ran": ran > 0, "cases": ran, "reason": why}));
@@ -949,6 +1015,9 @@ pub fn replay(case: &Value) -> Vec<Finding> {
     let w = world();
     if case["kind"].as_str() == Some("socket-expiry") {
         return socket_expiry_case(case["k"].as_u64().unwrap_or(0) as usize + 50, case["async"].as_bool().unwrap_or(false), case["flush"].as_bool().unwrap_or(false)).unwrap_or_default();
+    }
+    if case["kind"].as_str() == Some("socket-channel") {
+        return socket_channel_case(case["k"].as_u64().unwrap_or(0) as usize + 50).unwrap_or_default();
     }
     if case["kind"].as_str() == Some("ingest-exact") {
         return check_ingest_exact(case["ttl"].as_u64().unwrap_or(0) as u32, case["flush"].as_bool().unwrap_or(false), case["async"].as_bool().unwrap_or(false));
